@@ -14,7 +14,8 @@ from vf.spec import C, T, V, spec_children, walk
 RF_LEAVES = (V("x"), V("y"), C(0), C(1), C(2), C(-1))       # leaves of the rational fragment
 RF_EXPONENTS = (-2, -1, 0, 1, 2, 3)                         # literal integer exponents
 RF_QUICK_INNER_LEAVES = (V("x"), V("y"), C(1), C(2))        # leaves of depth-2 children (quick)
-RF_QUICK_INNER_POWERS = ((V("x"), -1), (V("x"), 0), (V("x"), 2), (C(2), -1), (C(2), 0), (C(2), 2))
+RF_QUICK_INNER_POWERS = ((V("x"), -1), (V("x"), 0), (V("x"), 2), (V("y"), -1), (V("y"), 2),
+                         (C(2), -1), (C(2), 0), (C(2), 2))
 RF_TERNARY_POOL_QUICK = 9                                   # pool size for Sum3/Product3 parents
 RF_TERNARY_POOL_THOROUGH = 26
 CHAIN4_OUTER = {"quick": (V("x"), C(2)), "thorough": (V("x"), C(2), C(0), C(1))}
@@ -439,6 +440,31 @@ def rename(s, mapping):
         return s
     from vf.spec import rebuild
     return rebuild(s, [rename(c, mapping) for c in ch])
+
+
+def param_inputs(tier):
+    """Inputs of the parameter dimension: sums of two monomials whose factors are constants,
+    variables and explicit powers of either variable (first summand: every single factor and
+    every ordered product of two; second summand: a small pool), plus the square of every
+    monomial and its product with a binomial (parameters reach the collector through distribute)."""
+    x, y = V("x"), V("y")
+    facs = [C(2), x, y, ("Power", x, C(2)), ("Power", y, C(2)), ("Power", x, C(-1)),
+            ("Power", y, C(-1))]
+    if tier != "quick":
+        facs += [("Power", x, C(3)), ("Power", y, C(3)), C(-1), ("Power", x, C(0))]
+    terms = list(facs) + [("Product", T(f, g)) for f, g in itertools.product(facs, repeat=2)]
+    small = [x, y, C(2), ("Product", T(C(2), x)), ("Product", T(y, x)), ("Power", y, C(2)),
+             ("Product", T(("Power", y, C(2)), x)), ("Product", T(("Power", x, C(2)), y))]
+    if tier != "quick":
+        small += [("Power", x, C(2)), ("Product", T(x, y)), ("Product", T(("Power", x, C(-1)), y)),
+                  ("Product", T(C(3), ("Power", y, C(3)), x))]
+    for t1 in terms:
+        for t2 in small:
+            yield ("Sum", T(t1, t2))
+            yield ("Sum", T(t2, t1))
+        yield ("Power", t1, C(2))
+        yield ("Product", T(("Sum", T(t1, C(1))), ("Sum", T(x, C(-1)))))
+        yield ("Sum", T(t1, ("Product", T(y, x)), ("Product", T(C(3), x))))
 
 
 def poly4(tier):
